@@ -34,6 +34,20 @@ CLAIMED = {
          'shown to apply the same match predicate over the same range (conditions controlling their match counters are equal '
          'after expanding locals); no locale-dependent libc is reachable. Byte equality of round-tripped content is not decided.',
          'Trusted: clang 14 front end; ISO C meaning of strlen/strcpy/strcat.', 'DESIGN.md 4/C16'),
+ 'C07': ('CFG path rules with history partitioning over the K4 abstract interpreter (flags + intervals), def-use staleness rule using K3 write-sets',
+         'All paths of the seek and read functions are covered: sample consumption is always paired with the position advance '
+         '(same count, half-rate shift); every successful seek path defines the position and restarts/rebuilds the decoder; '
+         'reads report the link index; no per-link value is used stale across a link switch; the packet accumulator tracks '
+         'the granule position also for track-only blocks. These are necessary conditions of "reported position = audio '
+         'delivered"; bit-identity of the audio is not decided.',
+         'Trusted: clang 14 front end; K3 effect table for externals; interval abstraction of return values; _ov_getlap is a '
+         'stated exception of R07.1.', 'DESIGN.md 4/C07'),
+ 'C08': ('CFG path rules with history partitioning over the K4 abstract interpreter; K3 write-sets decide "touches the handle"',
+         'Every literal rejection return of the five seek entry points is proven to be reached with the handle untouched; no '
+         'handle write precedes the range check of the position argument; the page seek reports success only with '
+         'pcm_offset <= pos established; every failing exit after the handle was touched has dumped position and decoder. '
+         'Reachability of targets and landing precision are not decided.',
+         'Trusted: clang 14 front end; K3 effect table for externals; interval abstraction.', 'DESIGN.md 4/C08'),
 }
 
 NA = {
